@@ -94,10 +94,10 @@ fn systematic(seq: &[u64], out: &mut Vec<Vec<u64>>) {
 pub fn gen(rng: &mut Rng, thorough: bool, out: &mut Vec<String>) {
     let entries = c03::all_entries();
     // random near-valid and malformed sequences
-    let per_type = if thorough { (40, 12, 60) } else { (3, 6, 6) };
+    let per_type = if thorough { (120, 12, 200) } else { (3, 6, 6) };
     c03::gen_for_entries("codec13", &entries, rng, per_type, false, out);
     // systematic single-position mutations of short valid encodings
-    let n_sys = if thorough { 6 } else { 1 };
+    let n_sys = if thorough { 40 } else { 1 };
     for (d, e) in &entries {
         for _ in 0..n_sys {
             let mut budget = 8;
@@ -114,10 +114,10 @@ pub fn gen(rng: &mut Rng, thorough: bool, out: &mut Vec<String>) {
         }
     }
     // long sequences: the bound must hold with the same constants
-    let long = if thorough { 40 } else { 6 };
+    let long = if thorough { 300 } else { 6 };
     for _ in 0..long {
         let (d, e) = rng.pick(&entries);
-        let mut budget = if thorough { 3000 } else { 400 };
+        let mut budget = if thorough { 20000 } else { 400 };
         let v = big_val(&e.desc, rng, &mut budget);
         let Some(seq) = c03::encode_with(e, &v) else { continue };
         out.push(format!("codec13 dec {} {}", d, fmt_list_u64(&seq)));
@@ -130,7 +130,7 @@ pub fn gen(rng: &mut Rng, thorough: bool, out: &mut Vec<String>) {
 fn big_val(t: &TyDesc, rng: &mut Rng, budget: &mut i64) -> c03::Val {
     match t {
         TyDesc::Vec(it) | TyDesc::Poly(it) => {
-            let n = ((*budget).max(0) as u64 / 2).min(2000);
+            let n = ((*budget).max(0) as u64 / 2).min(8000);
             *budget -= n as i64;
             let mut items: Vec<c03::Val> = (0..n).map(|_| c03::gen_val(it, rng, budget)).collect();
             if let TyDesc::Poly(_) = t {
